@@ -7,6 +7,7 @@ import (
 	"encoding/json"
 	"fmt"
 	"net/http"
+	"sort"
 	"strings"
 	"time"
 
@@ -49,11 +50,13 @@ type PStep struct {
 }
 
 type PRun struct {
-	Flow   int     `json:"flow"`
-	Parent int     `json:"parent"`
-	Status string  `json:"status"`
-	Exited bool    `json:"exited"`
-	Path   []PStep `json:"path"`
+	Flow    int     `json:"flow"`
+	Parent  int     `json:"parent"`
+	Status  string  `json:"status"`
+	Exited  bool    `json:"exited"`
+	Path    []PStep `json:"path"`
+	Res     []int   `json:"res"`     // per node: the category (= exit number) of the result its router saved last, 0 = none
+	LastAct int     `json:"lastact"` // the node whose action saved the result `last`, 0 = none
 }
 
 type PEvent struct {
@@ -527,6 +530,8 @@ type TRun struct {
 	NewSt   int     `json:"newst"`   // steps added during this sprint
 	HasFlow bool    `json:"hasflow"` // flow asset present
 	NWaits  int     `json:"nwaits"`  // *_wait events recorded by this run so far
+	Res     [][]int `json:"res"`     // generated flows only: (node number, category number) of every result a router saved; category -1 = a name the node does not have, -2 = saved under another node
+	LastAct int     `json:"lastact"` // generated flows only: node number in the result `last` (-1 = of another flow)
 }
 
 type TEvent struct {
@@ -697,6 +702,36 @@ func (t *sessionTracker) project(s flows.Session, sp flows.Sprint) *TLine {
 				tr.NWaits++
 			}
 		}
+		tr.Res = [][]int{}
+		for key, res := range r.Results() {
+			var n int
+			if _, err := fmt.Sscanf(key, "split%d", &n); err != nil {
+				if _, err := fmt.Sscanf(key, "wait%d", &n); err != nil {
+					if key == "last" {
+						var f2, n2 int
+						if _, err := fmt.Sscanf(res.Value, "n%d_%d", &f2, &n2); err == nil {
+							tr.LastAct = n2
+							if f2 != tr.Flow || string(res.NodeUUID) != nodeUUID(f2, n2) {
+								tr.LastAct = -1
+							}
+						}
+					}
+					continue
+				}
+			}
+			cat := -1
+			switch res.Category {
+			case "C1":
+				cat = 1
+			case "C2":
+				cat = 2
+			}
+			if string(res.NodeUUID) != nodeUUID(tr.Flow, n) {
+				cat = -2
+			}
+			tr.Res = append(tr.Res, []int{n, cat})
+		}
+		sort.Slice(tr.Res, func(a, b int) bool { return tr.Res[a][0] < tr.Res[b][0] })
 		tr.NewSt = len(r.Path()) - t.stCount[r.UUID()]
 		line.Runs = append(line.Runs, tr)
 	}
@@ -737,6 +772,15 @@ func modelProj(line *TLine, nnodes int) Proj {
 			e := s.EN
 			pr.Path = append(pr.Path, PStep{Node: s.NN, Exit: e})
 		}
+		pr.Res = make([]int, nnodes)
+		for _, nc := range r.Res {
+			if nc[0] >= 1 && nc[0] <= nnodes {
+				pr.Res[nc[0]-1] = nc[1]
+			} else {
+				pr.Res = append(pr.Res, nc[0], nc[1]) // a result of a node the model does not have: never equal to what it expects
+			}
+		}
+		pr.LastAct = r.LastAct
 		p.Runs = append(p.Runs, pr)
 	}
 	for _, e := range line.Events {
